@@ -294,6 +294,10 @@ class CdcDesign:
             return ("var", "var %s: %slogic;" % (n, ann))
         if k == "ifm":
             return ("var", "inst %s: %sIfcD;" % (n.split(".")[0], ann))
+        if k == "mpo":
+            return ("port", "%s: modport %sIfcD::mo" % (n.split(".")[0], ann))
+        if k == "mpi":
+            return ("port", "%s: modport %sIfcD::mi" % (n.split(".")[0], ann))
         if k == "let":
             return ("none", "")
         raise ValueError(k)
@@ -303,7 +307,8 @@ class CdcDesign:
         if self.need_struct:
             out += ["package PkgS {", "    struct S {", "        f0: logic,", "        f1: logic,", "    }", "}"]
         if self.need_ifc:
-            out += ["interface IfcD {", "    var d: logic;", "}"]
+            out += ["interface IfcD {", "    var d: logic;", "    modport mo {", "        d: output,", "    }",
+                    "    modport mi {", "        d: input,", "    }", "}"]
         for ch in self.children:
             out += ch
         out.append("module Top (")
@@ -471,11 +476,15 @@ class CdcGen:
                 d.add("i_%s%d" % (x, k), x, "in")
             if rng.random() < 0.6:
                 d.add("w_%s" % x, x, "win")
+            if rng.random() < 0.2:
+                d.add("mi_%s.d" % x, x, "mpi")
+                d.need_ifc = True
+                d.tags.add("modport-input")
         if rng.random() < 0.15:
             d.add("i_u0", None, "in")
             d.tags.add("unannotated-input")
         self.eff = {i: s["dom"] for i, s in enumerate(d.sigs)}   # effective (possibly inferred) domain
-        self.readable = d.by_kind("in")
+        self.readable = d.by_kind("in", "mpi")
         self.wide = d.by_kind("win")
         nit = rng.choice([1, 2, 3, 3, 4, 5, 6])
         items = []
@@ -505,12 +514,16 @@ class CdcGen:
                 dom = rng.choice(self.doms)
             if allow_unann and rng.random() < 0.2:
                 dom = None
-        kind = kind or rng.choice(["out", "var", "var", "ifm"] if rng.random() < 0.3 else ["out", "var"])
+        kind = kind or rng.choice(["out", "var", "ifm", "mpo"] if rng.random() < 0.3 else ["out", "var"])
         n = len(d.sigs)
         if kind == "ifm":
             d.need_ifc = True
             i = d.add("bus%d.d" % n, dom, "ifm")
             d.tags.add("interface-member")
+        elif kind == "mpo":
+            d.need_ifc = True
+            i = d.add("mo%d.d" % n, dom, "mpo")
+            d.tags.add("modport-output")
         else:
             pre = {"out": "o", "var": "v", "arr": "oa", "st": "os", "wout": "ow", "let": "l"}[kind]
             i = d.add("%s_%s%d" % (pre, dom or "u", n), dom, kind)
@@ -741,7 +754,7 @@ class CdcGen:
         # a driven 1-bit destination becomes readable by later items; an unannotated one counts as
         # the item's domain only when that is certain (clean always_ff: inferred from the clock)
         for m in made:
-            if d.sigs[m]["kind"] in ("out", "var", "ifm", "let"):
+            if d.sigs[m]["kind"] in ("out", "var", "ifm", "let", "mpo"):
                 if d.sigs[m]["dom"] is None:
                     self.eff[m] = self.idom if (infer and self.mode == "clean") else "?"
                 self.readable.append(m)
@@ -828,17 +841,23 @@ class CdcGen:
         return ("inst", guard, cname, conns)
 
     def reverse_one(self, items):
-        """move the driver of an unannotated scalar var behind its first reader"""
-        d = self.d
-        for i, it in enumerate(items):
-            if it[0] == "comb" and it[3] == "assign" and it[2][0][3] == "scalar":
-                dst = it[2][0][1][0][0]
-                if d.sigs[dst]["dom"] is None and d.sigs[dst]["kind"] in ("var", "out"):
-                    for j in range(i + 1, len(items)):
-                        if self.reads(items[j], dst):
-                            d.tags.add("read-before-driver")
-                            return items[:i] + items[i + 1:j + 1] + [it] + items[j + 1:]
-        return items
+        """append a reader of an unannotated variable BEFORE the assignment that drives it; both are
+        in one domain, so an order-independent reading sees no crossing"""
+        d, rng = self.d, self.rng
+        self.idom = rng.choice(self.doms)
+        self.mode = "clean"
+        src = self.pool(self.idom)
+        if not src:
+            return items
+        t = d.add("v_u%d" % len(d.sigs), None, "var")
+        o = d.add("o_%s%d" % (self.idom, len(d.sigs)), self.idom, "out")
+        d.tags.add("read-before-driver")
+        reader = ("comb", False, [("assign", [(o, None)], ("sig", t), "scalar")], "assign")
+        if rng.random() < 0.5:
+            reader = ("comb", False, [("assign", [(o, None)], ("bin", "&", ("sig", t), ("sig", rng.choice(src))), "scalar")], "assign")
+        driver = ("comb", False, [("assign", [(t, None)], ("sig", rng.choice(src)), "scalar")], "assign")
+        k = rng.randint(0, len(items))
+        return items[:k] + [reader] + items[k:] + [driver]
 
     def reads(self, it, s):
         return ("(SSig %d)" % s) in self.d.item_coq(it)
